@@ -135,11 +135,25 @@ def make_case(rng, tier, i, name, aligner=False, many=False):
         N = 9
         lead = (int(rng.integers(1370, 1500)),)
     data = mm.make_data(rng, name, K, D, N, lead, separation=float(rng.choice([0.5, 2.0, 8.0])))
+    lab_ = data.get('labels')
     data = {k: v for k, v in data.items() if k != 'labels'}
+    if name == 'gmm' and not many and i % 14 == 3:
+        # a very concentrated class next to a diffuse one (std 1e-3 .. 1e-2 vs 3 .. 8): log-densities of one observation under
+        # different classes lie thousands of nats apart
+        lead = ()
+        cent = rng.normal(size=(K, D)) * 10.0
+        sig = np.where(np.arange(K) == int(rng.integers(0, K)), 10.0 ** rng.uniform(-3, -2), rng.uniform(3.0, 8.0, size=K))
+        lab2 = np.arange(N) % K
+        data = {'y': cent[lab2] + rng.normal(size=(N, D)) * sig[lab2][:, None]}
+        conc_init = 0.9 * np.eye(K)[lab2].T + 0.1 / K
+    else:
+        conc_init = None
     style = ['positive', 'dirichlet', 'onehot'][int(rng.integers(0, 3))] if name != 'cbmm' else ['positive', 'dirichlet'][int(rng.integers(0, 2))]
     init = mm.make_init(rng, K, N, lead, style)
+    if conc_init is not None:
+        init, style = conc_init, 'near-truth'
     _CCOUNT[0] += 1
-    if _CCOUNT[0] % 4 == 0:
+    if _CCOUNT[0] % 4 == 0 and conc_init is None:
         # hard masks: boolean / integer typed, overlapping (not one-hot), every class with mass
         b = rng.random(init.shape) < 0.5
         b[..., 0, :] |= ~b.any(-2)
